@@ -216,7 +216,9 @@ SPAN_KIND = {'range': 0, 'list_str': 0, 'tuple_str': 0, 'list_dup': 0, 'np_int':
              'list_dupin': 0, 'np_dupin': 1, 'pd_dupin': 3, 'list_dupin_nm': 0, 'np_dupin_nm': 1, 'pd_dupin_nm': 3,
              # 4 = quarterly PeriodIndex with the MODELLED lookup (SolveAllPeriod.locate_qindex: labels are quarter ordinals
              # 4*year + quarter - 1, a year string is the key -(year)); period_q keeps the recorded table as a cross-check
-             'period_qm': 4, 'period_qm_late': 4}
+             'period_qm': 4, 'period_qm_late': 4,
+             # 5 = pandas IntervalIndex (get_loc answers with numpy.int64: kept finding of C05, SolveAllSpan.locate_interval)
+             'pd_interval': 5}
 PERIOD_MODELLED = ('period_qm', 'period_qm_late')
 # spans of integer labels that histories reindex (labels are their own ids, so ids stay meaningful across reindex())
 RX_KIND = {'rx_list': 0, 'rx_tuple': 0, 'rx_np': 1, 'rx_pd': 3}
@@ -236,7 +238,7 @@ def span_from_labels(span_type, labels):
         return pd.Index(list(labels))
     raise AssertionError(span_type)
 SPAN_NODUP = ('range', 'list_str', 'tuple_str', 'np_int', 'np_str', 'pd_int', 'pd_str', 'period_q', 'range0', 'list_empty', 'np_int0', 'pd_int0',
-              'period_qm', 'period_qm_late', 'rx_list', 'rx_tuple', 'rx_np', 'rx_pd')
+              'period_qm', 'period_qm_late', 'rx_list', 'rx_tuple', 'rx_np', 'rx_pd', 'pd_interval')
 INT_LABELS = ('range', 'np_int', 'pd_int', 'range0', 'np_int0', 'pd_int0', 'rx_list', 'rx_tuple', 'rx_np', 'rx_pd')
 
 
@@ -289,6 +291,8 @@ def make_span(span_type, n):
         return pd.Index(dupnm, dtype=object)
     if span_type == 'pd_int0':
         return pd.Index(list(range(-1, n - 1)))
+    if span_type == 'pd_interval':
+        return pd.IntervalIndex.from_breaks(list(range(n + 1)))
     if span_type in ('pd_dupin', 'pd_dupin_nm'):
         return pd.Index(dupin if span_type == 'pd_dupin' else dupin_nm, dtype=object)
     if span_type in ('period_q', 'period_qm'):
